@@ -70,6 +70,7 @@ func init() {
 		"(encoding/binary.littleEndian).Uint32":    specLEGet(4),
 		"(encoding/binary.littleEndian).Uint64":    specLEGet(8),
 		"strings.HasPrefix": specBytesHasPrefix,
+		"errors.Join":       specErrorsJoin,
 		"slices.Delete":     specSlicesDelete,
 		"(*sync/atomic.Bool).Load":           specAtomicBool("Load"),
 		"(*sync/atomic.Bool).Store":          specAtomicBool("Store"),
@@ -661,4 +662,17 @@ func specAtomicInt(op string) specFn {
 			return Val{}
 		}
 	}
+}
+
+// errors.Join: nil iff every argument is nil.
+func specErrorsJoin(env *Env, recv *Val, args []Val, st *State, call *ast.CallExpr) Val {
+	c := env.c
+	r := c.fresh("joined", "Int")
+	var allNil []string
+	for _, a := range args {
+		allNil = append(allNil, eq(a.T, "0"))
+	}
+	st.assume(fmt.Sprintf("(>= %s 0)", r))
+	st.assume(eq(eq(r, "0"), and(allNil...)))
+	return Val{T: r, Ty: types.Universe.Lookup("error").Type()}
 }
